@@ -7,6 +7,8 @@ with the evaluator raising it.  Recorders: observers on every EventType and a re
 ResultHandler plug-in on every plan (strong references to every Event)."""
 from __future__ import annotations
 
+import os
+
 import numpy as np
 
 from vlib import ens
@@ -25,9 +27,9 @@ RULE = ("case = (scenario variant, injector kind); inside: every abort index; a 
         "monitor_counters: runs per injector, events and deliveries checked")
 ASSUMPTIONS = ["abort = OptimizationAborted(USER_ABORT) raised by user code (observer, handler or evaluator), as BasicOptimizer.set_abort_callback does"]
 REQUIRED = {"quick": {"abort_runs.observer": 400, "abort_runs.handler": 400, "abort_runs.evaluator": 150, "events_checked": 15000, "deliveries_checked": 60000,
-                      "streams_checked": 2000, "latch_checked": 900, "later_steps_refused": 300, "nested_abort_runs": 200, "abort_runs_with_nested_plans_on_their_own_context": 200, "abort_runs_with_a_handler_added_after_an_earlier_nested_run": 60, "abort_runs_without_observers_for_the_start_of_an_evaluation": 120, "nested_plan_served_another_outer_plan_before": 100, "three_level_abort_runs": 600, "plan_functions_refused_after_abort": 900, "further_step_tried_during_finish_event": 1200, "basic_optimizer_abort_runs": 24, "__nontrivial__": 900},
+                      "streams_checked": 2000, "latch_checked": 900, "later_steps_refused": 300, "nested_abort_runs": 200, "abort_runs_with_nested_plans_on_their_own_context": 200, "abort_runs_with_a_handler_added_after_an_earlier_nested_run": 60, "abort_runs_without_observers_for_the_start_of_an_evaluation": 120, "abort_runs_with_redirected_optimizer_output": 100, "nested_plan_served_another_outer_plan_before": 100, "three_level_abort_runs": 600, "plan_functions_refused_after_abort": 900, "further_step_tried_during_finish_event": 1200, "basic_optimizer_abort_runs": 24, "__nontrivial__": 900},
             "thorough": {"abort_runs.observer": 5000, "abort_runs.handler": 5000, "abort_runs.evaluator": 2000, "events_checked": 200000, "deliveries_checked": 1000000,
-                         "streams_checked": 25000, "latch_checked": 12000, "later_steps_refused": 6000, "nested_abort_runs": 4000, "abort_runs_with_nested_plans_on_their_own_context": 3000, "abort_runs_with_a_handler_added_after_an_earlier_nested_run": 800, "abort_runs_without_observers_for_the_start_of_an_evaluation": 2500, "nested_plan_served_another_outer_plan_before": 1500, "three_level_abort_runs": 7000, "plan_functions_refused_after_abort": 10000, "further_step_tried_during_finish_event": 14000, "basic_optimizer_abort_runs": 200, "__nontrivial__": 12000}}
+                         "streams_checked": 25000, "latch_checked": 12000, "later_steps_refused": 6000, "nested_abort_runs": 4000, "abort_runs_with_nested_plans_on_their_own_context": 3000, "abort_runs_with_a_handler_added_after_an_earlier_nested_run": 800, "abort_runs_without_observers_for_the_start_of_an_evaluation": 2500, "abort_runs_with_redirected_optimizer_output": 2500, "nested_plan_served_another_outer_plan_before": 1500, "three_level_abort_runs": 7000, "plan_functions_refused_after_abort": 10000, "further_step_tried_during_finish_event": 14000, "basic_optimizer_abort_runs": 200, "__nontrivial__": 12000}}
 N = {"quick": 48, "thorough": 600}
 SCENARIOS = ["optimizer", "evaluator", "sequential", "nested", "nested3"]
 
@@ -126,6 +128,10 @@ def _spec(rng, nan=False, maxf=None, method="slsqp", V=2):
             "optimizer": {"method": method, "max_iterations": 2, "options": {"maxiter": 2}, "speculative": bool(rng.random() < 0.4), "split_evaluations": bool(rng.random() < 0.3)}}
     if maxf:
         spec["optimizer"]["max_functions"] = maxf
+    if rng.random() < 0.35:
+        # the back-end's output is redirected to a file (an option that has nothing to do with events)
+        spec["optimizer"]["stdout"] = ens.scratch_file("optimizer_output")
+        spec["_redirected"] = True
     if nan:
         spec["nan"] = [{"call": int(rng.integers(0, 4)), "r": r, "p": -1, "col": 0} for r in range(R)]
         # with a threshold of zero an evaluation in which every realization failed still ends normally (FINISHED_EVALUATION)
@@ -531,6 +537,8 @@ def run_case(case, obs):
                 obs.count("nested_plan_served_another_outer_plan_before")
         if scenario == "nested3":
             obs.count("three_level_abort_runs")
+        if any(isinstance(kw.get("config"), dict) and (kw["config"].get("optimizer") or {}).get("stdout") for _k, _s, kw in steps):
+            obs.count("abort_runs_with_redirected_optimizer_output")
         if getattr(w, "unobserved_types", False):
             obs.count("abort_runs_without_observers_for_the_start_of_an_evaluation")
         if getattr(w, "late_handler", False):
